@@ -112,6 +112,7 @@ Section WithFacts.
   Variable enc : list (string * erule).                 (* Gen: encode.register(<class>) -> body *)
   Variable exts : list (string * codec).                (* Gen: serializable.extensions *)
   Variable enum_default_as_name : bool.                 (* Gen: get_arg_options turns an Enum default into its name *)
+  Variable tuple_none_guard : bool.                     (* Gen: postprocess' tuple branch leaves None alone (`raw is not None and ...`) *)
 
   (* encode(value): dispatch on the class of the value *)
   Fixpoint encode_cfg (v : value) : prim :=
@@ -168,7 +169,8 @@ Section WithFacts.
     | TEnum ms, VStr s => if str_in s ms then Ok (VEnum s) else Err (Raise "KeyError")
     | TPath, VStr s => Ok (VPath s)                                   (* self.type(raw) *)
     | TList _, VTup vs => Ok (VList vs)
-    | TTupFix _, VNone | TTupVar _, VNone => Err (Raise "TypeError")  (* tuple(None) *)
+    | TTupFix _, VNone | TTupVar _, VNone =>
+        if tuple_none_guard then Ok VNone else Err (Raise "TypeError")  (* tuple(None) *)
     | TTupFix _, VList _ | TTupVar _, VList _ | TTupFix _, VTup _ | TTupVar _, VTup _ => Ok (postprocess t (to_raw x))
     | TTupFix _, _ | TTupVar _, _ => Err (Raise "OutOfModel")        (* tuple(<scalar>) *)
     | _, _ => Ok (postprocess t (to_raw x))
@@ -191,7 +193,7 @@ Section WithFacts.
     end.
 
   (* the fields of an Optional member that is None are still processed (none of them is required): each gets its definition
-     default, or None; postprocess of a Tuple field calls tuple(None) *)
+     default, or None; without the None guard, postprocess of a Tuple field calls tuple(None) *)
   Fixpoint absent_err (s : schema) : option err :=
     match s with
     | SLeaf t defn => match finish_default t (field_default defn VNone) with Ok _ => None | Err e => Some e end
